@@ -150,7 +150,7 @@ PROPS["C08"] = _hist(
 PROPS["C13"] = _hist(
     "C13", ["C13"],
     dict(classes=("real", "deep", "deep"), pool=(10, 20, 30), rule_prob=0.7,
-         weights={"add_page": 7, "add_links": 2, "batch": 1, "create": 4, "delete": 2, "addp": 4, "rmp": 1, "mvp": 3, "rule": 3, "rmrule": 1, "reopen": 1}),
+         weights={"add_page": 7, "add_links": 2, "batch": 4, "create": 4, "delete": 2, "addp": 4, "rmp": 1, "mvp": 3, "rule": 3, "rmrule": 1, "reopen": 1}),
     "histories that insert pages first (paths exist unmarked) and then attach deeper prefixes by each of the five routes "
     "(explicit create, add prefix, move, automatic on insertion, rule installation), parents created after children; for every "
     "webentity the child and parent webentity sets are compared with the model's set computation over attached prefixes. "
@@ -158,7 +158,7 @@ PROPS["C13"] = _hist(
     lambda f: f["we"] >= 3 and f["nested"] >= 2,
     ["C13_webentities", "C13_children_expected"],
     ["LRUTrie.dfs_iter", "Traph.get_webentity_child_webentities_iter", "Traph.get_webentity_parent_webentities", "LRUTrie.add_lru"],
-    Q(640), T(2400),
+    Q(1200, nops=(40, 80, 120)), T(2400),
 )
 
 PROPS["C19"] = _hist(
@@ -257,8 +257,8 @@ PROPS["C17"] = {
     "deciding_counters": ["C17_lrus", "C17_closure_checks", "C17_end_to_end_sites", "contract_evals:helpers.lru_variations",
                           "contract_evals:traph.lru_variations(bound name)"],
     "anchors": ["lru_variations", "https_variation", "Traph.expand_prefix"],
-    "quick": dict(max_hosts=3, max_paths=1, random=4000, e2e=12, shards=8, watchdog=300, min_cases=500),
-    "thorough": dict(max_hosts=3, max_paths=2, random=200000, e2e=150, shards=16, watchdog=1500, min_cases=5000),
+    "quick": dict(max_hosts=3, max_paths=1, random=4000, e2e=60, shards=8, watchdog=300, min_cases=500),
+    "thorough": dict(max_hosts=3, max_paths=2, random=200000, e2e=1500, shards=16, watchdog=1500, min_cases=5000),
     "level": "exploration",
     "assumptions": ["the enumerated grammar is bounded (H=3 hosts, P<=2 path stems from 7 values); longer LRUs are sampled only"],
 }
